@@ -26,4 +26,9 @@ def classify(prop, violation, case, known_list):
     return None
 
 
-PREDICATES = {}
+def _suffix_frozen(violation, case, finding):
+    from sim import known_suffix
+    return known_suffix.explains(violation, case, finding)
+
+
+PREDICATES = {'suffix_frozen': _suffix_frozen}
